@@ -253,38 +253,46 @@ func Main(m *testing.M) {
 // returns a non-empty description if f panicked or if the bubble could not shut down
 // (goroutines still blocked when f returned: a leak).
 func RunBubble(t *testing.T, f func()) (failure string) {
-	done := make(chan struct{})
+	res := make(chan string, 1)
 	go func() {
-		select {
-		case <-done:
-		case <-time.After(bubbleWatchdog):
-			buf := make([]byte, 8<<20)
-			buf = buf[:runtime.Stack(buf, true)]
-			fmt.Fprintf(os.Stderr, "HARNESS-HANG: bubble did not finish within %v\n%s\n", bubbleWatchdog, buf)
-			stats.Flush()
-			os.Exit(3)
-		}
-	}()
-	defer close(done)
-	var inner string
-	func() {
-		defer func() {
-			if r := recover(); r != nil {
-				buf := make([]byte, 4<<20)
-				failure = fmt.Sprintf("bubble did not shut down cleanly: %v\n%s", r, filterBubble(buf[:runtime.Stack(buf, true)]))
-			}
-		}()
-		synctest.Test(t, func(*testing.T) {
+		var inner, outer string
+		func() {
 			defer func() {
 				if r := recover(); r != nil {
-					inner = fmt.Sprintf("panic inside bubble: %v\n%s", r, debug.Stack())
+					buf := make([]byte, 4<<20)
+					outer = fmt.Sprintf("bubble did not shut down cleanly: %v\n%s", r, filterBubble(buf[:runtime.Stack(buf, true)]))
 				}
 			}()
-			f()
-		})
+			synctest.Test(t, func(*testing.T) {
+				defer func() {
+					if r := recover(); r != nil {
+						inner = fmt.Sprintf("panic inside bubble: %v\n%s", r, debug.Stack())
+					}
+				}()
+				f()
+			})
+		}()
+		if inner != "" {
+			res <- inner
+			return
+		}
+		res <- outer
 	}()
-	if inner != "" {
-		return inner
+	select {
+	case r := <-res:
+		return r
+	case <-time.After(FrozenAfter):
+		// Virtual time cannot advance while a goroutine of the bubble is blocked on a mutex
+		// (not a durable wait). If the holder of that mutex waits for virtual time the
+		// bubble freezes: a limitation of the substrate, not a finding. The bubble is
+		// abandoned (its goroutines stay parked) and the case reported as frozen.
+		buf := make([]byte, 4<<20)
+		return Frozen + "\n" + filterBubble(buf[:runtime.Stack(buf, true)])
 	}
-	return failure
 }
+
+// Frozen prefixes the result of RunBubble for a bubble that made no progress in real time.
+const Frozen = "FROZEN-BUBBLE"
+
+// FrozenAfter is the real-time budget of one RunBubble case.
+var FrozenAfter = 30 * time.Second
